@@ -45,9 +45,18 @@ def run_schedule(env, sched, hooks, rounds=1):
     out_rounds = []
     for rnd in range(rounds):
         pm.LOGQ = mp.Queue()
+        verdict = sched["verdict"]
+        if rnd % 2 == 1:
+            # the second solve is asked about changed assertions with the opposite verdict: whatever a loser
+            # of the first solve still managed to post must not be taken for an answer to this one
+            verdict = "unsat" if sched["verdict"] == "sat" else "sat"
+            if verdict == "unsat":
+                extra = m.LE(m.Int(5), x)
+                port.add_assertion(extra)
+                asserts = asserts + [extra]
         for i in range(1, n + 1):
             b = sched["beh"][i - 1]
-            pm.CONFIG[i] = dict(beh=("ans" if b == "ans" else b), verdict=sched["verdict"], gate=pm.Gate(),
+            pm.CONFIG[i] = dict(beh=("ans" if b == "ans" else b), verdict=verdict, gate=pm.Gate(),
                                 crash_gate=pm.Gate(), model=sat_model)
             if b == "ans":
                 pm.CONFIG[i]["beh"] = "answer"
@@ -123,7 +132,7 @@ def run_schedule(env, sched, hooks, rounds=1):
         for i in range(1, n + 1):
             pm.CONFIG[i]["crash_gate"].set()
         rd = {"res": result.get("res", "slow"), "exc": result.get("exc", ""), "model": [], "value": "na", "served": [],
-              "winner": 0, "has_model": False}
+              "winner": 0, "has_model": False, "verdict": verdict, "asserts": [term_io.export(a) for a in asserts]}
         if rd["res"] in ("sat", "unsat") and port._ext_solver is not None:
             rd["winner"] = int(port._ext_solver.name.split(" ")[0]) + 1
         winner_beh = sched["beh"][rd["winner"] - 1] if rd["winner"] else ""
@@ -167,10 +176,13 @@ def run(ck):
         total += r.distinct
         if r.invariant_violated or r.property_violated or r.error or r.rc != 0:
             ck.machinery_error("MC_Portfolio %s: %s %s\n%s" % (cfg, r.invariant_violated, r.error, r.out[-1200:]))
+    rq = tlc.run("mc/MC_Portfolio", cfg="MC_Portfolio_sharedq.cfg", timeout=3000)
+    if "Agreement" not in rq.invariant_violated:
+        ck.machinery_error("the model with one signalling queue for the object's life did not produce the stale-answer counterexample")
     rp = tlc.run("mc/MC_Portfolio", cfg="MC_Portfolio_pinned.cfg", timeout=3000)
     if "SolveReturns" not in rp.out or "violated" not in rp.out:
         ck.machinery_error("the model of the pinned portfolio did not produce the blocking counterexample")
-    ck.part("design_check_MC_Portfolio", states=total, members=3, pinned_counterexample=True)
+    ck.part("design_check_MC_Portfolio", states=total, members=3, consecutive_solves=2, pinned_counterexample=True, shared_queue_counterexample=True)
     # ---- (B)
     n2 = gen_corpus("N2", module="gen/Gen_Portfolio", deps=DEPS)
     n3 = gen_corpus("N3", module="gen/Gen_Portfolio", deps=DEPS)
